@@ -195,6 +195,8 @@ class Ranges:
                 rng['r2'] = max(rng['r2'], int(r['r2']))
                 rng['n2'] = max(rng['n2'], r['n2'])
 
+        for k in ('r1', 'r2'):
+            rng[k] = str(rng[k])
         rng = self.format_range(('name', 'n1', 'n2'), **rng)
         if self.values and other.values:
             values = self.values.copy()
